@@ -105,12 +105,16 @@ func (pl ProofList) Verify(publicKeys []*gabikeys.PublicKey, context, nonce *big
 		if len(keyshareServers) > 0 {
 			kss = keyshareServers[i]
 		}
+		skResponse := proof.SecretKeyResponse()
+		if skResponse == nil {
+			return false
+		}
 		if response, contains := secretkeyResponses[kss]; !contains {
 			// First time we see this keyshare server
-			secretkeyResponses[kss] = proof.SecretKeyResponse()
+			secretkeyResponses[kss] = skResponse
 		} else {
 			// We've already seen this keyshare server, secret key response should match earlier one
-			if response.Cmp(proof.SecretKeyResponse()) != 0 {
+			if response.Cmp(skResponse) != 0 {
 				return false
 			}
 		}
